@@ -107,6 +107,23 @@ func checkStream(stream []byte) (signature.SignatureDatabase, []esl.List, error)
 	if !bytes.Equal(mb.Bytes(), stream) {
 		return nil, nil, fmt.Errorf("Marshal() of the decoded database does not reproduce the input: %d bytes in, %d bytes out", len(stream), mb.Len())
 	}
+	// the same through a reader that offers nothing but Read, in small chunks (a file, a pipe)
+	for _, chunk := range []int{0, 7} {
+		pr := &hx.PlainReader{R: bytes.NewReader(stream), Chunk: chunk}
+		dbp, err := signature.ReadSignatureDatabase(pr)
+		if err != nil {
+			return nil, nil, fmt.Errorf("ReadSignatureDatabase through a plain io.Reader (chunk %d) rejects a well-formed stream: %v", chunk, err)
+		}
+		if !bytes.Equal(dbp.Bytes(), stream) {
+			return nil, nil, fmt.Errorf("ReadSignatureDatabase through a plain io.Reader (chunk %d) decodes another database: %d lists, %d bytes re-encoded of %d", chunk, len(dbp), len(dbp.Bytes()), len(stream))
+		}
+	}
+	// encoding into a buffer that already holds bytes appends, and touches nothing before
+	pre := bytes.NewBufferString("prefix-bytes-0123456789")
+	db.Marshal(pre)
+	if !bytes.Equal(pre.Bytes(), append([]byte("prefix-bytes-0123456789"), stream...)) {
+		return nil, nil, fmt.Errorf("Marshal into a non-empty buffer does not append the encoding to what was there")
+	}
 	var db2 signature.SignatureDatabase
 	if err := db2.Unmarshal(bytes.NewBuffer(append([]byte{}, stream...))); err != nil {
 		return nil, nil, fmt.Errorf("Unmarshal rejects a well-formed stream: %v", err)
